@@ -214,6 +214,24 @@ Definition c10_gog_case_ok (v : list str * str * str) : Prop :=
   let '(vdocs, const, wire) := v in
   forallb Proofs.C10Lex.c10_line_ok vdocs = true /\ c10_go_name_ok const = true /\ forallb c10_key_char wire = true.
 
+(* tagged enums: the constant, the key type, the struct, the receiver, the two field names, the accessor methods of the variants
+   that carry something and the helper-struct references are names; wire names, tag and content keys are key-shaped (they are
+   printed inside double quotes resp. raw strings); a tuple variant's content type is a type of the grammar *)
+Definition c10_gog_content_ok (method : str) (c : go_content) : Prop :=
+  match c with
+  | GCNone => True
+  | GCType ty _ => c10_go_name_ok method = true /\ c10_gog_ty ty
+  | GCInner ref => c10_go_name_ok method = true /\ c10_go_name_ok ref = true
+  end.
+Definition c10_gog_variant_ok (v : go_variant) : Prop :=
+  forallb Proofs.C10Lex.c10_line_ok (gv_docs v) = true /\ c10_go_name_ok (gv_const v) = true /\ forallb c10_key_char (gv_wire v) = true /\
+  c10_gog_content_ok (gv_method v) (gv_content v).
+Definition c10_gog_tagged_ok (e : go_tagged) : Prop :=
+  forallb Proofs.C10Lex.c10_line_ok (gt_docs e) = true /\ c10_go_name_ok (gt_name e) = true /\ c10_go_name_ok (gt_key_type e) = true /\
+  forallb c10_key_char (gt_tag_key e) = true /\ forallb c10_key_char (gt_content_key e) = true /\
+  c10_go_name_ok (gt_tag_field e) = true /\ c10_go_name_ok (gt_content_field e) = true /\ c10_go_name_ok (gt_short e) = true /\
+  Forall c10_gog_variant_ok (gt_variants e).
+
 Definition c10_gog_decl_ok (d : go_decl) : Prop :=
   match d with
   | GOStruct docs name gs ms =>
@@ -221,7 +239,7 @@ Definition c10_gog_decl_ok (d : go_decl) : Prop :=
   | GOAlias docs name ty => forallb Proofs.C10Lex.c10_line_ok docs = true /\ c10_go_name_ok name = true /\ c10_gog_ty ty
   | GOConst name ty value => c10_go_name_ok name = true /\ c10_gog_ty ty /\ Proofs.C10_TSGrammar.c10_tsg_num value
   | GOUnitEnum docs name vs => forallb Proofs.C10Lex.c10_line_ok docs = true /\ c10_go_name_ok name = true /\ Forall c10_gog_case_ok vs
-  | GOTagged e => False
+  | GOTagged e => c10_gog_tagged_ok e
   end.
 
 Lemma L_type : CSeg false (lit "type ") [qkw "type"] false. Proof. lit_cseg. Qed.
@@ -255,10 +273,11 @@ Qed.
 Lemma decl_head k r : (k = lit "type" \/ k = lit "const" \/ k = lit "func") -> exists k' r', QId k :: r = QId k' :: r' /\ str_eqb k' (lit "import") = false.
 Proof. intros H. exists k, r. split; [reflexivity|]. destruct H as [-> | [-> | ->]]; reflexivity. Qed.
 
-Theorem go_render_decl_gram d : c10_gog_decl_ok d ->
+(* structs, aliases, constants, unit enums (tagged enums: Proofs/C10_GOGrammarTagged.v) *)
+Theorem go_render_decl_gram_basic d : match d with GOTagged _ => False | _ => True end -> c10_gog_decl_ok d ->
   exists tds, CSeg false (go_render_decl d) (decls_toks tds) false /\ Forall DeclToks tds /\ (1 <= List.length tds)%nat.
 Proof.
-  destruct d as [docs name gs ms | docs name ty | name ty value | docs name vs | e]; cbn [c10_gog_decl_ok]; [| | | |contradiction].
+  intros Hnt. destruct d as [docs name gs ms | docs name ty | name ty value | docs name vs | e]; cbn [c10_gog_decl_ok]; [| | | |contradiction].
   - intros (Hd & Hn & Hg & Hms). destruct (members_text ms Hms) as (body & Hfb & Hgb).
     exists [qkw "type" :: QId name :: gparams gs ++ qkw "struct" :: QP 123 :: body]. split; [|split; [|cbn; lia]].
     + unfold decls_toks. cbn [map List.concat]. rewrite app_nil_r. intros b tb Hb. cbn [go_render_decl]. rewrite <- ?app_assoc. cbn [app].
